@@ -232,16 +232,14 @@ class TypeGen:
     def nolit(self, t: dict) -> dict:
         """Serialization refuses Literal members of unions with an explicit TypeError
         ("Literal[...] is not supported in union serialization"): avoided when cfg says so."""
-        if self.cfg["lit_in_union"]:
-            return t
         if t["k"] == "opt":
             return {"k": "opt", "of": self._nolit_alt(t["of"])}
         if t["k"] == "union":
-            return {"k": "union", "alts": [self._nolit_alt(a) for a in t["alts"]]}
+            return dict(t, alts=[self._nolit_alt(a) for a in t["alts"]])
         return t
 
     def _nolit_alt(self, a: dict) -> dict:
-        if a["k"] == "lit":
+        if a["k"] == "lit" and not self.cfg["lit_in_union"]:
             return {"k": "str"}
         if a["k"] == "ann" and a["of"]["k"] in ("opt", "union"):
             # a union nested through Annotated is not flattened by typing, and serialization refuses it with the same
